@@ -12,8 +12,10 @@ ASSUMPTIONS = [
     'inputs are P + S: P from a catalogue of concrete accepted prefixes reaching every reader state and every position '
     'inside a section (start of header, after "#<id>:", after "key=", inside content), S a fully symbolic tail of '
     'bounded length followed by end of file; plus fully symbolic short buffers',
-    'object-model loading on symbolic metadata text uses a nondeterministic json.loads stub (dict / non-dict / '
-    'ValueError); such paths are flagged "stubbed" and only the exception-type claim is made on them',
+    'json.loads on symbolic metadata text runs CPython\'s own pure-Python JSON decoder under the same instrumentation '
+    '(sx/jsonmodel.py; the two places where it is laxer than the C decoder are patched, and it is validated against the '
+    'native json module on every run of ./check selftest); should that model decline (Unmodelled), the path falls back '
+    'to a small catalogue and is flagged "stubbed"',
     'termination = the path finishes within the per-path time limit (8 s; normal paths take milliseconds)',
 ]
 
@@ -208,7 +210,7 @@ def obligations(tier):
                   bounds={'len': [0, NF]}))
     ND = 3 if quick else 5
     obs.append(Ob('dom[prefix+tail]', ob_dom, dict(prefixes=DOM_PREFIXES, N=ND), must_reach=['DiffXDOMReader.parse'],
-                  path_timeout=8, stubs=['json.loads on symbolic text: {dict, non-dict, ValueError}'],
+                  path_timeout=8, stubs=['json.loads on symbolic text: instrumented pure-Python decoder (exact); catalogue fallback flagged'],
                   desc='DiffX.from_stream on catalogue prefixes + symbolic tail: only BaseDiffXError subclasses escape; '
                        'the stream is closed on success and on every failing path',
                   bounds={'tail_len': [0, ND], 'prefixes': len(DOM_PREFIXES)}))
@@ -225,7 +227,7 @@ def obligations(tier):
     obs.append(Ob('corrupt[dom,utf8]', ob_corrupt, dict(api='dom', fname='utf8', W=1,
                                                         positions=list(range(0, len(BASE_FILES['utf8']), 4 if quick else 1))),
                   must_reach=['DiffXDOMReader.parse'], path_timeout=8,
-                  stubs=['json.loads on symbolic text: catalogue / assumed invalid'],
+                  stubs=['json.loads on symbolic text: instrumented pure-Python decoder (exact); catalogue fallback flagged'],
                   desc='object-model loading of the utf8 base file with one symbolic byte replacing / inserted at positions',
                   bounds={'window': 1}))
     obs.append(Ob('dom[attribute-named-options]', ob_dom_attrs, dict(N=1 if quick else 2),
